@@ -4,7 +4,7 @@ from harness.props import base
 
 PROP = {
     "id": "C08",
-    "quick_n": 240,
+    "quick_n": 360,
     "thorough_n": 6000,
     "rule": "one program = tree spec, stream, factor from {1/4,1/2,1,2,3,0,-1,nan, int 2}; "
             "h*f (or f*h) versus a fresh copy filled with weights*f; (h*f)*g vs h*(g*f); h*1; h*2 "
@@ -28,7 +28,7 @@ def gen_one(r, i, tier):
     n = r.randint(0, 8 if tier == "quick" else 20)
     s = base.small_stream(r, spec, n, gen.WEIGHTS) if dyadic else gen.stream(r, spec, n)
     s2 = base.small_stream(r, spec, r.randint(0, 4), gen.WEIGHTS) if dyadic else gen.stream(r, spec, 3)
-    f = r.choice(FACTORS)
+    f = r.choice(FACTORS) if r.random() < 0.7 else r.choice([0.0, -1.0, float("nan"), float("nan")])
     g2 = r.choice([0.5, 2.0, 4.0])
     positive = (f == f and f > 0)
     ops = []
